@@ -261,6 +261,96 @@ pub fn pair_world(s1: usize, s2: usize, is_async: bool, pos: Pos, nm: Naming) ->
     })
 }
 
+/// "payload sequence" band: the flattened future/stream list of one function is an arbitrary
+/// sequence over PAYLOAD_ALPHABET, so it contains every repeat pattern of a type id (repeat
+/// first / in the middle / last, followed by the other kind or a fresh payload type). The
+/// per-function index N of `[future-OP-N]f` / `[stream-OP-N]f` must be the *position* in that
+/// list, whatever de-duplication a backend does for its vtables.
+pub const PAYLOAD_ALPHABET: [&str; 4] = ["stream<u8>", "future<u8>", "stream<string>", "future<string>"];
+pub const SEQ_PLACES: [&str; 4] = ["IfaceBoth", "WorldBoth", "MethodImport", "MethodExport"];
+
+/// `seq` = indices into PAYLOAD_ALPHABET; the first `nparams` are parameters, the rest the
+/// result (one type, or a tuple).
+pub fn payload_seq_world(seq: &[usize], nparams: usize, place: &str, is_async: bool, nm: Naming) -> WorldCase {
+    let params: Vec<String> =
+        seq[..nparams].iter().enumerate().map(|(i, t)| format!("p{i}: {}", PAYLOAD_ALPHABET[*t])).collect();
+    let res: Vec<&str> = seq[nparams..].iter().map(|t| PAYLOAD_ALPHABET[*t]).collect();
+    let result = match res.len() {
+        0 => String::new(),
+        1 => format!(" -> {}", res[0]),
+        _ => format!(" -> tuple<{}>", res.join(", ")),
+    };
+    let sig = format!("{}func({}){result}", if is_async { "async " } else { "" }, params.join(", "));
+    let f = nm.func();
+    let mut s = format!("package {};\n\n", nm.pkg());
+    match place {
+        "IfaceBoth" => {
+            s += &format!(
+                "interface {i} {{\n  {f}: {sig};\n}}\n\nworld my-world {{\n  import {i};\n  export {i};\n}}\n",
+                i = nm.iface()
+            );
+        }
+        "WorldBoth" => {
+            s += &format!("world my-world {{\n  import {f}: {sig};\n  export {f}: {sig};\n}}\n");
+        }
+        _ => {
+            s += &format!(
+                "interface {i} {{\n  resource {r} {{\n    {f}: {sig};\n  }}\n}}\n\nworld my-world {{\n  {d} {i};\n}}\n",
+                i = nm.iface(),
+                r = nm.res(),
+                d = if place == "MethodImport" { "import" } else { "export" }
+            );
+        }
+    }
+    let code: String = seq.iter().map(|t| ["s", "f", "S", "F"][*t]).collect();
+    WorldCase {
+        id: format!(
+            "seq/{code}/{nparams}p/{place}/{}/{}",
+            if is_async { "async" } else { "sync" },
+            nm.tag()
+        ),
+        src: Source::Inline(s),
+    }
+}
+
+fn sequences(len: usize) -> Vec<Vec<usize>> {
+    let mut out = vec![vec![]];
+    for _ in 0..len {
+        out = out.into_iter().flat_map(|v: Vec<usize>| (0..4).map(move |t| { let mut n = v.clone(); n.push(t); n })).collect();
+    }
+    out
+}
+
+pub fn payload_seq_band(thorough: bool) -> Vec<WorldCase> {
+    let kebab_v = Naming { kebab: true, version: 1 };
+    let mut out = vec![];
+    // all 64 sequences of length 3, two splits, interface and world level, import + export
+    for seq in sequences(3) {
+        for nparams in if thorough { vec![0, 1, 2, 3] } else { vec![1, 2] } {
+            for place in SEQ_PLACES {
+                for is_async in [false, true] {
+                    let quick = !is_async && matches!(place, "IfaceBoth" | "WorldBoth");
+                    if quick || thorough {
+                        out.push(payload_seq_world(&seq, nparams, place, is_async, kebab_v));
+                    }
+                }
+            }
+        }
+    }
+    // quick: the length-4 sequences that repeat their first type in third place (x y x z)
+    // thorough: all 256 sequences of length 4, every split, interface level
+    for seq in sequences(4) {
+        if thorough {
+            for nparams in 0..=4 {
+                out.push(payload_seq_world(&seq, nparams, "IfaceBoth", false, kebab_v));
+            }
+        } else if seq[0] == seq[2] {
+            out.push(payload_seq_world(&seq, 2, "IfaceBoth", false, kebab_v));
+        }
+    }
+    out
+}
+
 pub fn enumerated(thorough: bool) -> Vec<WorldCase> {
     let mut out = vec![];
     let kebab_v = Naming { kebab: true, version: 1 };
@@ -321,6 +411,7 @@ pub fn enumerated(thorough: bool) -> Vec<WorldCase> {
             }
         }
     }
+    out.extend(payload_seq_band(thorough));
     out
 }
 
